@@ -1,6 +1,7 @@
 package props
 
 import (
+	"errors"
 	"bytes"
 	"fmt"
 	"iter"
@@ -23,6 +24,9 @@ type c16Case struct {
 		WRL   uint16 `json:"wrl"`
 		PAL   uint16 `json:"pal"`
 	} `json:"giant,omitempty"`
+	// ErrOn: attribute type codes for which the path-attribute callback returns a
+	// non-fatal error (1 attribute discard, 2 treat-as-withdraw, 3 a plain error)
+	ErrOn map[uint8]uint8 `json:"err_on,omitempty"`
 }
 
 func (c c16Case) bytes() []byte {
@@ -32,7 +36,12 @@ func (c c16Case) bytes() []byte {
 	return c.B
 }
 
-type c16Rec struct{ evs []wire.PartEvent }
+type c16Rec struct {
+	evs   []wire.PartEvent
+	errOn map[uint8]uint8
+}
+
+var errC16Plain = errors.New("c16: callback does not like this attribute")
 
 // c16Fresh: every evaluation builds a decoder of its own (concurrent sub-check); otherwise
 // one decoder serves all evaluations of the process, as a plugin would use it
@@ -55,6 +64,14 @@ func newC16Decoder() *corebgp.UpdateDecoder[*c16Rec] {
 		},
 		func(r *c16Rec, code uint8, flags corebgp.PathAttrFlags, b []byte) error {
 			r.evs = append(r.evs, wire.PartEvent{Kind: "attr", Type: code, Flags: uint8(flags), Val: append([]byte{}, b...)})
+			switch r.errOn[code] {
+			case 1:
+				return &corebgp.AttrDiscardUpdateErr{Code: code}
+			case 2:
+				return &corebgp.TreatAsWithdrawUpdateErr{Code: code}
+			case 3:
+				return errC16Plain
+			}
 			return nil
 		},
 		func(r *c16Rec, b []byte) error {
@@ -122,7 +139,13 @@ func c16Prop(c c16Case) hx.Verdict {
 	} else if ref.NAttrs >= 2 || ref.NDup > 0 || ref.NExtLen > 0 || ref.Overrun || ref.DupMP {
 		v.NT = h64(b)
 	}
-	rec := &c16Rec{}
+	rec := &c16Rec{errOn: c.ErrOn}
+	if len(c.ErrOn) > 0 {
+		v.Class = "cberr/" + v.Class
+		if v.NT != "" {
+			v.NT += fmt.Sprint(c.ErrOn)
+		}
+	}
 	in := append([]byte(nil), b...)
 	err := c16Dec().Decode(rec, in)
 	_ = err // error classes are C17's business
@@ -254,6 +277,33 @@ func TestC16(t *testing.T) {
 		return c16Case{B: b}
 	}
 	hx.Rapid(r, t, "grammar", r.N(60000, 600000), genOne, c16Prop)
+
+	// the partition does not depend on what the path-attribute callback returns, as long
+	// as it is not a session reset: a type code is "seen" once it was handed on, whether or
+	// not the callback liked it (seeded change C16v)
+	genErr := func(rt *rapid.T) c16Case {
+		c := genOne(rt)
+		ref := wire.PartitionUpdate(c.B)
+		c.ErrOn = map[uint8]uint8{}
+		var codes []uint8
+		for _, e := range ref.Events {
+			if e.Kind == "attr" {
+				codes = append(codes, e.Type)
+			}
+		}
+		n := rapid.IntRange(1, 3).Draw(rt, "nerr")
+		for i := 0; i < n; i++ {
+			var code uint8
+			if len(codes) > 0 && rapid.IntRange(0, 9).Draw(rt, "present") > 0 {
+				code = rapid.SampledFrom(codes).Draw(rt, "code")
+			} else {
+				code = rapid.Uint8().Draw(rt, "anycode")
+			}
+			c.ErrOn[code] = uint8(rapid.IntRange(1, 3).Draw(rt, "kind"))
+		}
+		return c
+	}
+	hx.Rapid(r, t, "erring_callbacks", r.N(30000, 300000), genErr, c16Prop)
 
 	c16Fresh.Store(true)
 	hx.Rapid(r, t, "concurrent_decoders", r.N(400, 4000), genConc(genOne, 2, 6, 40), concProp(c16Prop))
